@@ -2,9 +2,9 @@ package props
 
 import "testing"
 
-func BenchmarkC01(b *testing.B) {
+func BenchmarkC02(b *testing.B) {
 	b.ReportAllocs()
 	for i := 0; i < b.N; i++ {
-		c01CheckHeader(c01HdrCase{B1: 0x41, Fill: 3, Sync: 0x47, Seed: 1})
+		c02Check(c02Case{AFLen: 40, Combo: 5, Hdr: 1, Fill: 1})
 	}
 }
